@@ -15,7 +15,8 @@
      Kills prefix a b                b is a with some log files marked deleted, nothing else changed
      a deleted file stays in the list with f_alive = false; the directory listing is filter f_alive. *)
 From Coq Require Import Sorting.Sorted.
-From SV Require Import Base.Bytes Model.LogFile Proofs.LogFileP Proofs.LogFileW Proofs.LogFileS Proofs.LogFileO Proofs.LogFileR.
+From SV Require Import Base.Bytes Base.SrcAst Spec.Civil Model.Time Model.LogFile Proofs.LogFileP Proofs.LogFileW Proofs.LogFileS Proofs.LogFileO Proofs.LogFileR
+  Tie.FmtEval Tie.WriterTie Generated.SourceParams.
 
 (* C19.1  len_is_sum -- PrefixFileSet.len equals the sum of the lengths in the heap after every
    sequence of API calls (debug build: whenever the call returns), ... *)
@@ -270,6 +271,26 @@ Proof.
   - vm_compute. reflexivity.
 Qed.
 
+(* C19.src  the body of the writer thread's loop as TRANSLATED statement by statement from
+   src/log/log_file_writer.rs ON THIS RUN (props/srcparams.py -> Generated/SourceParams.v: src_writer_loop),
+   interpreted over the model's writer state by Tie/WriterTie.v, is the model's [step] -- for every state, event,
+   configuration, build profile and tie schedule.  This fixes the order of the duties (rotate, delete by age, delete
+   by size, append), the rotation condition (file length PLUS the event strictly above max_write_bytes, or the
+   file's age by THIS iteration's clock reading strictly above max_write_age), the pushed entry (path, mtime = that
+   clock reading, len) and the deletion budget (max_keep_bytes minus the current file minus the event, saturating).
+   The file name format of LogFile::create is Model/Time.v's fmt_compact; the builder defaults are the documented ones. *)
+Theorem c19_writer_loop_is_the_source : forall b18 m cfg w ev,
+  eval_iteration (post b18) m cfg ev src_writer_loop w = step (post b18) m cfg w ev.
+Proof. exact writer_loop_tie. Qed.
+Theorem c19_file_name_is_the_source : forall t n,
+  eval_fmt (name_env t n) src_logfile_name_fmt = Some (46 :: fmt_compact t ++ 45 :: dec n).
+Proof. exact logfile_name_tie. Qed.
+Theorem c19_builder_defaults_are_the_source :
+  src_default_max_write_age_secs = 86400 /\ src_default_max_write_bytes = 10485760 /\ src_min_max_write_bytes = 65536.
+Proof. exact writer_defaults_tie. Qed.
+Theorem c19_translation_complete : src_problems_writer = 0%nat.
+Proof. exact writer_translated. Qed.
+
 Print Assumptions c19_len_is_sum.
 Print Assumptions c19_writer_len_is_sum.
 Print Assumptions c19_writer_never_panics.
@@ -292,3 +313,7 @@ Print Assumptions c19_equal_mtimes_fixed.
 Print Assumptions c19_oracle_set_sound.
 Print Assumptions c19_set_new_good.
 Print Assumptions c19_oracle_writer_sound_partial.
+Print Assumptions c19_writer_loop_is_the_source.
+Print Assumptions c19_file_name_is_the_source.
+Print Assumptions c19_builder_defaults_are_the_source.
+Print Assumptions c19_translation_complete.
